@@ -10,9 +10,11 @@ META = {
     "design_ref": "5/C21",
     "coq_targets": ["Props/Properties_C21.vo", "EC/RSCheck.vo", "EC/RSBufCheck.vo"],
     "coq_files": ["EC/GF256.v", "EC/GF256Proofs.v", "EC/LinAlg.v", "EC/LinAlgProofs.v", "EC/RS.v", "EC/RSProofs.v",
-                  "EC/RSBuf.v", "EC/RSBufProofs.v", "EC/RSCheck.v", "EC/RSBufCheck.v", "Gen/ECConsts.v",
+                  "EC/RSBuf.v", "EC/RSBufProofs.v", "EC/RSCheck.v", "EC/RSBufCheck.v", "EC/RSMds.v", "EC/RSGenTie.v", "Gen/ECConsts.v",
                   "Props/Properties_C21.v"],
-    "theorems": [],
+    "theorems": ["C21_gf_field", "C21_library_tables", "C21_mds", "C21_equal_lengths", "C21_hashes", "C21_decode",
+                 "C21_decode_empty_refuted", "C21_partial_indexes", "C21_partial_range", "C21_multi_rule_no_corruption",
+                 "C21_caller_buffer_exact", "C21_multi_rule_hazard_with_spare_capacity"],
     "technique": "",
     "level_text": "",
     "level_note": "",
@@ -81,7 +83,7 @@ def chunked(cases, nchunks):
 def eval_rs(ctx, cases):
     """returns (bad_model, bad_ref) as sets of (case index, j) with j=0 encode, j>0 op j-1; None on failure"""
     jobs, maps = [], []
-    for idxs in chunked(cases, 32):
+    for idxs in chunked(cases, 10 if ctx.tier == "quick" else 16):
         defs = "".join(case_defs(cases[i], "c%d" % i) for i in idxs)
         jobs.append(("rs", PRELUDE + defs + "Definition cases : list case := [%s].\n" % ";".join("c%d" % i for i in idxs),
                      {"model": "model_mismatches cases", "ref": "ref_mismatches cases"}))
@@ -170,7 +172,7 @@ def mcase_lit(c):
 
 def eval_multi(ctx, cases):
     jobs, offs = [], []
-    CH = max(1, (len(cases) + 7) // 8)
+    CH = max(1, (len(cases) + 3) // 4) if ctx.tier == "quick" else max(1, (len(cases) + 11) // 12)
     for off in range(0, len(cases), CH):
         lit = "[" + ";\n".join(mcase_lit(c) for c in cases[off:off + CH]) + "]"
         jobs.append(("multi", MPRELUDE + "Definition cases : list mcase := %s.\n" % lit,
@@ -193,8 +195,15 @@ def hist(xs):
 
 
 def run(ctx):
+    import time
+    T = [time.time()]
+
+    def lap(name):
+        T.append(time.time())
+        ctx.cov.setdefault("phase_s", {})[name] = round(T[-1] - T[-2], 1)
     gen_consts()
     ctx.prove()
+    lap("prove")
     model = ctx.model_ready(["EC/RSCheck.vo", "EC/RSBufCheck.vo"])
     binp = ctx.go_build()
     if ctx.replay:
@@ -205,6 +214,7 @@ def run(ctx):
     cases = ctx.run_json([binp, "rs"])
     mcases = ctx.run_json([binp, "multi"])
     pcases = ctx.run_json([binp, "putmod"])
+    lap("go")
     if not model:
         ctx.tie(False)
         return
@@ -220,6 +230,7 @@ def run(ctx):
         for (i, j) in sorted(bad_model | bad_ref)[:10]:
             ctx.violation({"seed": ctx.seed, "case": describe(cases[i], j),
                            "disagrees_with": [w for w, s in (("model EC/RS.v", bad_model), ("reference (C21 theorem right-hand sides)", bad_ref)) if (i, j) in s]})
+    lap("eval_rs")
     # tie 3+4: several rules from one slice (len, cap) vs buffer model, vs reference
     r = eval_multi(ctx, mcases)
     if r is None:
@@ -235,6 +246,7 @@ def run(ctx):
                                                        "cap": len(c["mem"]), "mem": c["mem"]},
                            "impl_parts_after_each_call": c["after"], "impl_parts_at_end": c["final"],
                            "disagrees_with": [w for w, s in (("model EC/RSBuf.v", bad_model), ("reference (pure encoding kept)", bad_ref)) if i in s]})
+    lap("eval_multi")
     # tie 5: the real caller (slicer -> modifyECParentObject): cap == len at encode time (C21_caller_buffer_exact)
     # and every rule's kept parts equal a fresh encoding of a private copy of the payload
     bad = [c for c in pcases if c["err"] or c["objects"] == 0 or c["lens"] != c["caps"]
@@ -256,7 +268,7 @@ def run(ctx):
         "evaluations": len(cases) + nops + len(mcases) + len(pcases),
         "distinct_nontrivial": len(keys) + len(mkeys) + len({(tuple(map(tuple, c["rules"])), c["len"], c["limit"], c["chunk"]) for c in pcases if len(c["rules"]) > 1}),
         "rule": "rs: all 40 rules k=1..8,m=0..4 x payload lengths {0,1,k-1,k,k+1,2k+1,random small,random big}; every erasure pattern with <= m+1 "
-                "missing parts for small rules (k+m<=6, thorough <=8), random patterns otherwise, one malformed (truncated) part set per case; "
+                "missing parts for small rules (k+m<=5, thorough <=8), random patterns otherwise, one malformed (truncated) part set per case; "
                 "op = Decode | DecodeRange | DecodeIndexes. multi: 1..4 random rules on one slice with cap=len or spare capacity. putmod: real slicer "
                 "+ modifyECParentObject. Non-trivial = non-empty payload with at least one part erased (rs), >= 2 rules and non-empty payload (multi, putmod); "
                 "distinct by (rule, length, op, mask, arguments) resp. (rules, len, cap) resp. (rules, len, limit, chunk).",
